@@ -1,6 +1,8 @@
-//! The harness's own model of "which key of which party, with which stake, is in force for signing
-//! at epoch E", computed ONLY from the boundary log (registrations the aggregator acknowledged) and
-//! the statement's rule: a registration sent during chain epoch c is used for signing at c + 2.
+//! The harness's own model of "which key of which party, with which stake, under which protocol
+//! parameters, is in force for signing at epoch E", computed ONLY from the boundary log
+//! (registrations the aggregator acknowledged, the registration parameters it announced) and the
+//! statement's rule: a registration sent during chain epoch c -- made with the parameters the
+//! aggregator announced for the registration round of epoch c -- is used for signing at c + 2.
 //! (The epoch arithmetic is written out here on purpose: the `Epoch::offset_*` functions of
 //! mithril-common are part of what is checked.)
 use mithril_common::crypto_helper::{ProtocolAggregateVerificationKey, ProtocolSingleSignature};
@@ -30,7 +32,13 @@ pub struct EpochKeys {
 }
 
 pub struct Model {
-    pub pp: ProtocolParameters,
+    /// parameters of the history's start (the genesis epochs)
+    pub pp0: ProtocolParameters,
+    /// protocol parameters of the registration round of chain epoch c, as the REAL aggregator
+    /// announced them: `signer_registration_protocol` of its genuine /epoch-settings replies whose
+    /// `epoch` is c (no parameter is ever computed by the harness; the rounds before the history
+    /// starts are the fixture's)
+    pub announced: BTreeMap<u64, ProtocolParameters>,
     /// registrations the aggregator acknowledged (201), in log order
     pub regs: Vec<Registration>,
     /// stake distribution observable on chain during chain epoch c
@@ -45,13 +53,45 @@ pub enum SigVerdict {
     NoSignerSet,
     Undecodable(String),
     Invalid(String),
+    /// the aggregator never announced parameters for the round the key was registered in
+    NoParameters,
+}
+
+#[derive(Debug, PartialEq)]
+pub enum Announced {
+    New,
+    Same,
+    /// the aggregator had announced other parameters for the same round before
+    Conflict(ProtocolParameters),
 }
 
 pub const SIGNING_OFFSET: u64 = 2;
 
 impl Model {
-    pub fn new(pp: ProtocolParameters) -> Model {
-        Model { pp, regs: vec![], stakes_at: BTreeMap::new(), cache: BTreeMap::new() }
+    pub fn new(pp0: ProtocolParameters) -> Model {
+        Model { pp0, announced: BTreeMap::new(), regs: vec![], stakes_at: BTreeMap::new(), cache: BTreeMap::new() }
+    }
+
+    /// the aggregator announced `pp` for the registration round of chain epoch `round_epoch`
+    pub fn announce(&mut self, round_epoch: u64, pp: ProtocolParameters) -> Announced {
+        match self.announced.get(&round_epoch) {
+            Some(old) if *old == pp => Announced::Same,
+            Some(old) => Announced::Conflict(old.clone()),
+            None => {
+                self.cache.remove(&(round_epoch + SIGNING_OFFSET));
+                self.announced.insert(round_epoch, pp);
+                Announced::New
+            }
+        }
+    }
+
+    /// parameters in force for signing at `signing_epoch`: those announced for the registration round
+    /// in which the keys in force were registered (sent during `signing_epoch - 2`)
+    pub fn parameters_in_force(&self, signing_epoch: u64) -> Option<&ProtocolParameters> {
+        if signing_epoch < SIGNING_OFFSET {
+            return None;
+        }
+        self.announced.get(&(signing_epoch - SIGNING_OFFSET))
     }
 
     pub fn add(&mut self, r: Registration) {
@@ -98,14 +138,14 @@ impl Model {
             let stake = *stakes.get(&p)?;
             signers.push(SignerWithStake::from_signer(r.signer.clone(), stake));
         }
-        let b = SignerBuilder::new(&signers, &self.pp).ok()?;
+        let b = SignerBuilder::new(&signers, self.parameters_in_force(signing_epoch)?).ok()?;
         Some(EpochKeys { signers, avk: b.compute_aggregate_verification_key() })
     }
 
     /// does this single signature verify -- with mithril-stm directly -- for `signed_message` under
     /// the key `party` registered for `signing_epoch`, in the signer set of that epoch?
     pub fn verify(&mut self, signing_epoch: u64, party: &str, signature_json_hex: &str, won_indexes: &[u64], signed_message: &str) -> SigVerdict {
-        let pp = self.pp.clone();
+        let Some(pp) = self.parameters_in_force(signing_epoch).cloned() else { return SigVerdict::NoParameters };
         let Some(keys) = self.keys(signing_epoch) else { return SigVerdict::NoSignerSet };
         let Some(s) = keys.signers.iter().find(|s| s.party_id == party) else { return SigVerdict::NotRegistered };
         let sig = match ProtocolSingleSignature::from_json_hex(signature_json_hex) {
